@@ -198,14 +198,33 @@ def features(items, nd):
 def cases(draw, tier):
     max_depth = 3 if tier == "quick" else 4
     ex = _exclusions()
-    if draw(st.integers(0, 2)):
+    product = draw(st.integers(0, 9)) == 0
+    if product:
+        # product family: Matmul of two structured square factors (class pairs such as lower x upper triangular, diagonal x
+        # triangular, ... have their own _diagonal / _getitem shortcuts), optionally below a sum / scaling
+        cfg = gen.Cfg(dt=draw(st.sampled_from(["f64", "f64", "f32"])), exclude=ex)
+        n_ = draw(st.integers(1, 5))
+        batch_ = draw(st.sampled_from(gen.BATCHES))
+
+        def factor():
+            h = draw(st.sampled_from(["TriT", "TriT", "TriT", "Diag", "Dense", "Toeplitz", "ConstantDiag", "Identity"]))
+            dom = draw(st.sampled_from(["tril", "triu"])) if h == "TriT" else "any"
+            return gen.call_maker(h, draw, cfg, dom, n_, n_, batch_, 1)
+
+        r = {"op": "Matmul", "args": [factor(), factor()]}
+        wrap = draw(st.sampled_from(["none", "none", "sum", "constmul"]))
+        if wrap == "sum":
+            r = {"op": "Sum", "args": [r, gen.mk_dense(draw, cfg, "any", n_, n_, batch_, 1)]}
+        elif wrap == "constmul":
+            r = {"op": "ConstantMul", "base": r, "c": gen.flit(draw, cfg, (), -24, 24, scale_ok=False)}
+    elif draw(st.integers(0, 2)):
         r = draw(gen.head_first_recipes("any", max_depth=max_depth, exclude=ex))
     else:
         r = draw(gen.recipes(draw(st.sampled_from(["any", "psd", "pd"])), max_depth=max_depth, exclude=ex))
     shape = refmodel.shape(r)
     trig = _open_triggers()
     case = {"recipe": r, "debug": draw(st.sampled_from([True, True, False]))}
-    if shape[-1] == shape[-2] and draw(st.integers(0, 7)) == 0 and not ("kron_nonsquare_factor" in trig and _kron_nonsquare(r)):
+    if shape[-1] == shape[-2] and draw(st.integers(0, 1 if product else 7)) == 0 and not ("kron_nonsquare_factor" in trig and _kron_nonsquare(r)):
         case["diag"] = True
     else:
         case["index"] = draw(indices(shape, neg_tensor="neg_tensor_entries" not in trig, neg_int_matrix="neg_int_matrix" not in trig))
